@@ -16,6 +16,8 @@ def work(item, opts):
         case = universe.battery_inf()[item["n"]]
     elif "v" in item:
         case = dict(universe.boundary_battery()[item["v"]])
+    elif "s" in item:
+        case = dict(universe.small_population_battery()[item["s"]])
     elif "e" in item:
         case = universe.case_ext(item["e"])
         for k in ("mode", "workers"):
